@@ -14,6 +14,7 @@ package main
 
 import (
 	"fmt"
+	"strconv"
 	"strings"
 
 	"verifharness/internal/rng"
@@ -228,17 +229,25 @@ func (c *loopCase) fullScript() string {
 // ---------------------------------------------------------------------------
 // Which tables does an SQL export create?  (statement reader of the export text)
 
-// createdTables returns the names after CREATE TABLE, in order, of a script the planner printed
-// (identifiers in backticks, “ = a backtick).
+// createdTables returns the names of the tables a script of the planner creates, in order.  The
+// planner does not escape a backtick inside an identifier, so the name is taken from the comment
+// the formatter prints before the statement (-- Create %q table), and from the statement itself
+// only when there is no such comment.
 func createdTables(sqlText string) []string {
 	var names []string
 	const kw = "CREATE TABLE "
-	for _, line := range strings.Split(sqlText, "\n") {
+	lines := strings.Split(sqlText, "\n")
+	for i, line := range lines {
 		if !strings.HasPrefix(line, kw) {
 			continue
 		}
-		rest := strings.TrimPrefix(line, kw)
-		rest = strings.TrimPrefix(rest, "IF NOT EXISTS ")
+		if i > 0 && strings.HasPrefix(lines[i-1], "-- Create \"") && strings.HasSuffix(lines[i-1], "\" table") {
+			if n, err := strconv.Unquote(strings.TrimSuffix(strings.TrimPrefix(lines[i-1], "-- Create "), " table")); err == nil {
+				names = append(names, n)
+				continue
+			}
+		}
+		rest := strings.TrimPrefix(strings.TrimPrefix(line, kw), "IF NOT EXISTS ")
 		if !strings.HasPrefix(rest, "`") {
 			f := strings.FieldsFunc(rest, func(r rune) bool { return r == ' ' || r == '(' })
 			if len(f) > 0 {
@@ -248,19 +257,11 @@ func createdTables(sqlText string) []string {
 			}
 			continue
 		}
-		var b strings.Builder
-		for i := 1; i < len(rest); i++ {
-			if rest[i] == '`' {
-				if i+1 < len(rest) && rest[i+1] == '`' {
-					b.WriteByte('`')
-					i++
-					continue
-				}
-				break
-			}
-			b.WriteByte(rest[i])
+		end := strings.Index(rest[1:], "` (")
+		if end < 0 {
+			end = len(rest) - 1
 		}
-		names = append(names, b.String())
+		names = append(names, rest[1:1+end])
 	}
 	return names
 }
